@@ -251,6 +251,13 @@ def _gen_chart(rng, kind, exact, big=False):
     else:
         pool = [Fr(float(rng.choice([rng.randint(3000, 40000) / 100, rng.uniform(20, 500), rng.randint(30, 400)])))
                 for _ in range(rng.choice([1, 2, 2, 3, 4]))]
+    # a quarter of the charts carry tempo points far from the others (1-12 bpm crawls, "teleport" points of 10^5 .. 2*10^6 bpm):
+    # normalising multipliers outside 0.01x .. 10x, which the routines must produce as they are
+    if rng.random() < 0.25:
+        if exact:
+            pool += [Fr(base * 2.0 ** k) for k in rng.sample([-7, -5, 6, 10, 14], rng.choice([1, 2]))]
+        else:
+            pool += [Fr(float(v)) for v in rng.sample([1.0, 7.5, 12.0, 100000.0, 2000000.0, 48000.5], rng.choice([1, 2]))]
     # tempo points at distinct times (a small share with a coincident pair: outside the domain, correspondence only)
     offs = set()
     while len(offs) < nb:
